@@ -287,6 +287,24 @@ class Ref:
         if k == "list":
             self.feat.add("form:list-display")
             return [self.eval_form(c) for c in nd[1]]
+        if k == "tuple":
+            self.feat.add("form:tuple-display")
+            return tuple(self.eval_form(c) for c in nd[1])
+        if k in ("dict", "set"):
+            vals = [self.eval_form(c) for c in nd[1]]
+            try:
+                if k == "dict":
+                    if len(vals) % 2:
+                        raise OutOfDomain("odd dict display")
+                    out = dict(zip(vals[::2], vals[1::2]))
+                else:
+                    out = set(vals)
+                    if len(out) > 1:
+                        raise OutOfDomain("a set display with several distinct elements has no iteration order to judge")
+            except TypeError:
+                raise OutOfDomain("unhashable element in a display")
+            self.feat.add("form:%s-display" % k)
+            return out
         if k == "expr" and len(nd[1]) == 2 and nd[1][0] == ["sym", "quote"]:
             self.feat.add("form:quote")
             return self.literal(nd[1][1])
